@@ -49,13 +49,30 @@ def _drive(tab, mode):
 # ----------------------------------------------------------------------------
 # A: step limits
 
-def check_limits(name, astr, tier):
+def _mk_handmade(logic, arg, **opts):
+    "the same start as _mk, but without an argument: the trunk nodes are put on a hand-made branch"
+    from pytableaux import _verif
+    from pytableaux.proof import Tableau
+    _verif.reset(0)
+    src = Tableau(logic, arg)
+    trunk = [dict(n) for n in src[0]]
+    _verif.reset(0)
+    tab = Tableau(logic, **opts)
+    b = tab.branch()
+    for n in trunk:
+        b.append(n)
+    return tab
+
+def check_limits(name, astr, tier, handmade=False):
     from pytableaux.lang import Argument
     arg = Argument(astr)
     out = dict(evals=0, viol=[], n=None)
+    label = astr + ('|handmade' if handmade else '')
+    _make = _mk_handmade if handmade else _mk
     def viol(kind, what):
-        out['viol'].append(dict(sig=f'{name}|{astr}|{kind}', what=f'{name}: {astr}: {what}', replay=dict(part='limits', logic=name, argstr=astr, tier=tier)))
-    base = _mk(name, arg)
+        out['viol'].append(dict(sig=f'{name}|{label}|{kind}', what=f'{name}: {astr}{" (trunk nodes on a hand-made branch, no argument)" if handmade else ""}: {what}',
+                                replay=dict(part='limits', logic=name, argstr=astr, tier=tier, handmade=handmade)))
+    base = _make(name, arg)
     with tabx.watchdog(30):
         _drive(base, 'build')
     n = len(base.history)
@@ -67,7 +84,7 @@ def check_limits(name, astr, tier):
     for mode in ('build', 'step'):
         for lim in [None, 0, -1] + list(range(1, n + 2)):
             out['evals'] += 1
-            tab = _mk(name, arg, max_steps=lim)
+            tab = _make(name, arg, max_steps=lim)
             try:
                 with tabx.watchdog(30):
                     _drive(tab, mode)
@@ -98,6 +115,8 @@ def check_limits(name, astr, tier):
                     viol(f'cut-verdict|{lim}', f'max_steps={lim} [{mode}] (natural length {n}): stopped by the limit but reports valid={tab.valid} invalid={tab.invalid}')
                 if hist_sig(tab) != bh[:lim]:
                     viol(f'cut-history|{lim}', f'max_steps={lim} [{mode}]: the recorded steps are not the first {lim} steps of the unlimited run')
+            if handmade and (tab.valid is not None or tab.invalid is not None):
+                viol(f'verdict-without-argument|{lim}', f'max_steps={lim} [{mode}]: a tableau without an argument reports valid={tab.valid} invalid={tab.invalid}')
             # a finished tableau ignores further step()/finish()
             d0 = digest(tab)
             r1 = tab.step()
@@ -388,6 +407,12 @@ def _limits_task(task):
         out['evals'] += r['evals']
         out['viol'] += r['viol']
         out['lengths'].append(r['n'])
+        try:
+            r2 = check_limits(name, a, tier, handmade=True)
+            out['evals'] += r2['evals']
+            out['viol'] += r2['viol']
+        except tabx.ExecTimeout:
+            pass
         if r['n'] is not None and r['n'] <= (10 if tier == 'quick' else 40):
             for models in (False, True):
                 t = check_timeouts(name, a, tier, models)
@@ -416,7 +441,7 @@ def run(ctx):
         evaluations=sum(r['evals'] for r in res) + sum(r['transitions'] for r in lres),
         distinct_nontrivial=len(lengths) + sum(r['states'] for r in lres),
         rule=('A: per (logic, argument) of a pool with natural lengths ' + f'{min(lengths)}..{max(lengths)}' + ': max_steps in {None, 0, -1, 1..n+1} x {build, step}, '
-              'compared with the unlimited run under the same node order; B: every timeout firing point under a virtual clock advancing 1 ms per '
+              'compared with the unlimited run under the same node order, once with the argument trunk and once with the trunk nodes on a hand-made branch (no argument); B: every timeout firing point under a virtual clock advancing 1 ms per '
               'reading (with and without model building); C: BFS over ' + str(len(LifeModel.OPS)) + ' lifecycle operations from 8 initial configurations to depth '
               + str(depth) + ', a state is (logic, argument, flag word, history/branch counts capped at 3, per-branch node counts, open count, rules locked)'),
         limit_pool_size=len(lengths), timeout_cut_points=sum(r['points'] for r in res),
@@ -429,7 +454,7 @@ def run(ctx):
 def replay(data, ctx):
     tabx.setup()
     if data['part'] == 'limits':
-        r = check_limits(data['logic'], data['argstr'], data.get('tier', 'quick'))
+        r = check_limits(data['logic'], data['argstr'], data.get('tier', 'quick'), handmade=data.get('handmade', False))
         return r['viol'][0]['what'] if r['viol'] else None
     if data['part'] == 'timeouts':
         r = check_timeouts(data['logic'], data['argstr'], data.get('tier', 'quick'), data.get('models', False))
